@@ -252,6 +252,11 @@ Proof. reflexivity. Qed.
 Example C10_pin_fifteen_minutes : (token_max_delta + 1) * token_interval_ns = 15 * 60 * sec.
 Proof. reflexivity. Qed.
 
+(* ---- structural pin (srcfacts): the token check is made by the query dispatcher ---- *)
+Example C10_pin_token_check_site :
+  valid_token_callers = ["handleQuery"]%string /\ valid_token_callers_ok = true.
+Proof. repeat split. Qed.
+
 Print Assumptions C10_valid_token_iff.
 Print Assumptions C10_valid_iff_issuable.
 Print Assumptions C10_window_lower.
